@@ -18,6 +18,7 @@ pub mod c08;
 pub mod c09;
 pub mod c10;
 pub mod lsp;
+pub mod c11;
 pub mod c12;
 pub mod c13;
 pub mod c14;
